@@ -146,7 +146,7 @@ func (c *Ctx) N(quick int) int {
 		n *= 8
 	}
 	if c.Search {
-		n *= 10
+		n *= 4
 	}
 	return n
 }
